@@ -2,7 +2,7 @@
    (tree = rewritten document) and semantically (same truth value under every event); the local
    agreement of every transformation with its documented rewrite; rule- and pipeline-level theorems. *)
 From Coq Require Import NArith List Bool Lia.
-From PS Require Import Base.Chars Model.SString Model.Transform Spec.Rewrite.
+From PS Require Import Base.Chars Model.SString Model.Transform Spec.Rewrite Proofs.HashesP.
 Import ListNotations.
 Open Scope N_scope.
 
@@ -43,6 +43,12 @@ Proof. induction 1; simpl; [reflexivity | congruence]. Qed.
 (* items of a tree satisfy p *)
 Fixpoint forall_items (p : ditem -> bool) (d : det) : bool :=
   match d with DI i => p i | DD l _ => forallb (forall_items p) l end.
+
+Lemma forall_items_true d : forall_items (fun _ => true) d = true.
+Proof.
+  induction d as [i | l land IH] using det_ind'; [reflexivity|]. cbn [forall_items].
+  apply forallb_forall. intros x Hx. rewrite Forall_forall in IH. apply IH, Hx.
+Qed.
 
 Lemma flat_map_ext_on {A B} (f g : A -> list B) (q : A -> bool) l :
   Forall (fun x => q x = true -> f x = g x) l -> forallb q l = true -> flat_map f l = flat_map g l.
@@ -416,6 +422,69 @@ Proof.
   destruct (existsb (fun x => is_some (tv (i_field i) x)) (i_vals i)); reflexivity.
 Qed.
 
+(* ---------- hashes_fields ---------- *)
+Lemma hashes_touch H i : touch_hashes H i = is_repl (hashes_item H i).
+Proof.
+  unfold touch_hashes, hashes_item. destruct (i_field i); [|reflexivity].
+  destruct (mem_str s (h_fields H) && forallb is_strv (i_vals i)); reflexivity.
+Qed.
+Lemma hashes_exact H i : i_neg i = false ->
+  map doc_of (rep_list i (hashes_item H i)) = opt_list (rw_hashes H i).
+Proof.
+  intros Hn. unfold rw_hashes, touch_hashes, hashes_item. destruct (i_field i) as [f|]; [|reflexivity].
+  destruct (mem_str f (h_fields H) && forallb is_strv (i_vals i)); [|reflexivity].
+  rewrite Hn, dict_group_spec, xorb_false_r. cbn [rep_list map doc_of opt_list wrap_neg].
+  rewrite map_map. destruct (i_all i); reflexivity.
+Qed.
+Lemma existsb_negb_forallb (xs : list bool) : existsb id (map negb xs) = negb (forallb id xs).
+Proof. induction xs as [|x xs IH]; [reflexivity|]. cbn [map existsb forallb id]. rewrite IH, negb_andb. reflexivity. Qed.
+Lemma forallb_negb_existsb' (xs : list bool) : forallb id (map negb xs) = negb (existsb id xs).
+Proof. induction xs as [|x xs IH]; [reflexivity|]. cbn [map existsb forallb id]. rewrite IH, negb_orb. reflexivity. Qed.
+Lemma hashes_sem asg H i :
+  sems asg (rep_list i (hashes_item H i)) = evals asg (opt_list (rw_hashes H i)).
+Proof.
+  destruct (i_neg i) eqn:Hn; [|apply exact_sem_local, hashes_exact, Hn].
+  unfold rw_hashes, touch_hashes, hashes_item. destruct (i_field i) as [f|]; [|reflexivity].
+  destruct (mem_str f (h_fields H) && forallb is_strv (i_vals i)); [|reflexivity].
+  rewrite Hn, dict_group_spec. set (gs := filter _ _).
+  cbn [rep_list opt_list wrap_neg]. unfold sems, evals. cbn [flat_map]. rewrite !app_nil_r, sem_DD.
+  set (xs := map (fun g => sem_item asg (hash_entry i false g)) gs).
+  assert (S1 : sems asg (map (fun g => DI (hash_entry i true g)) gs) = map negb xs).
+  { unfold sems, xs. rewrite flat_map_map, map_map. clear. induction gs as [|g gs IH]; [reflexivity|].
+    cbn [flat_map map]. rewrite IH. cbn [sem opt_list app]. f_equal. unfold sem_item, hash_entry. cbn [i_neg i_field i_all i_vals].
+    rewrite xorb_true_l, xorb_false_l. reflexivity. }
+  assert (S2 : flat_map (fun x => opt_list (eval asg x)) (map (fun g => Entry (hash_entry i false g)) gs) = xs).
+  { unfold xs. rewrite flat_map_map. clear. induction gs as [|g gs IH]; [reflexivity|].
+    cbn [flat_map map]. rewrite IH. reflexivity. }
+  rewrite S1. f_equal. cbn [eval]. destruct (i_all i); cbn [xorb eval]; rewrite S2; destruct xs as [|x xs']; try reflexivity;
+    unfold comb; cbn [option_map map]; f_equal.
+  - change (negb x :: map negb xs') with (map negb (x :: xs')). apply existsb_negb_forallb.
+  - change (negb x :: map negb xs') with (map negb (x :: xs')). apply forallb_negb_existsb'.
+Qed.
+
+(* ---------- extract_fields ---------- *)
+Lemma extract_docs_of X i : map doc_of (extract_dets X i) = extract_docs X i.
+Proof.
+  unfold extract_dets, extract_docs. rewrite map_flat_map. apply flat_map_ext. intros v.
+  destruct v as [[c s| | | | | | | ]|]; try reflexivity.
+  destruct (extract_lookup X s) as [groups|].
+  - destruct (extract_group_items X groups) as [|a l]; [reflexivity|]. cbn [map doc_of]. rewrite map_map. reflexivity.
+  - destruct (x_preserve X); reflexivity.
+Qed.
+Lemma extract_touch X i : touch_extract X i = is_repl (extract_item X i).
+Proof.
+  unfold touch_extract, extract_item. rewrite <- extract_docs_of.
+  destruct (forallb is_strv (i_vals i)); [|reflexivity]. destruct (extract_dets X i) as [|x [|y l]]; reflexivity.
+Qed.
+Lemma extract_exact X i : i_neg i && touch_extract X i = false ->
+  map doc_of (rep_list i (extract_item X i)) = opt_list (rw_extract X i).
+Proof.
+  unfold touch_extract, rw_extract, extract_item. rewrite <- extract_docs_of.
+  destruct (forallb is_strv (i_vals i)); [|reflexivity]. cbn [andb].
+  destruct (extract_dets X i) as [|x [|y l]]; cbn [map]; intros Hn; try reflexivity;
+    rewrite andb_true_r in Hn; rewrite Hn; cbn [rep_list map doc_of opt_list wrap_neg]; destruct (i_all i); reflexivity.
+Qed.
+
 (* ---------- one processing item on a rule ---------- *)
 Definition afn_of (t : tspec) : option (option str -> fres) :=
   match t with
@@ -432,12 +501,17 @@ Definition item_sem_ok (c : conds) (t : tspec) (i : ditem) : bool :=
   match afn_of t, t with
   | Some afn, _ => kw_ok (fm_of c) afn i
   | None, TReplace tbl => forallb (replace_value_ok (tbl_sub tbl)) (i_vals i)
+  | None, TExtract X => negb (i_neg i && touch_extract X i)     (* the negation of the item is lost (D34) *)
   | None, _ => true
   end.
 (* domain of the exact theorem *)
 Definition item_exact_ok (c : conds) (t : tspec) (i : ditem) : bool :=
   item_sem_ok c t i &&
-  negb (im_of c i && match afn_of t with Some afn => many_neg (fm_of c) afn i | None => false end).
+  negb (im_of c i && match afn_of t, t with
+                     | Some afn, _ => many_neg (fm_of c) afn i
+                     | None, THashes _ => i_neg i       (* the tree is the De Morgan dual of the rewrite *)
+                     | None, _ => false
+                     end).
 
 Definition rule_ok (p : ditem -> bool) (r : rule) : bool :=
   forallb (fun d => forall_items p (snd d)) (r_dets r).
@@ -452,16 +526,27 @@ Definition tv_of (t : tspec) : option (option str -> value -> option (list value
   | TConvertStr => Some tv_convert_str
   | TWildPh k => Some (tv_placeholder k repl_wild)
   | TValuePh k vars => Some (tv_placeholder k (repl_vars vars))
+  | TRegex m => Some (tv_regex m)
+  | TConvertNum tbl => Some (tv_convert_num tbl)
+  | TQueryPh k e m => Some (tv_queryph k e m)
+  | _ => None
+  end.
+(* transformations that replace a whole detection item *)
+Definition it_of (t : tspec) : option ((ditem -> rep) * ((ditem -> bool) * (ditem -> option doc))) :=
+  match t with
+  | THashes H => Some (hashes_item H, (touch_hashes H, rw_hashes H))
+  | TExtract X => Some (extract_item X, (touch_extract X, rw_extract X))
   | _ => None
   end.
 
 (* per-detection step of a processing item (everything except add_condition) *)
 Definition det_step (c : conds) (t : tspec) : det -> det :=
-  match afn_of t, tv_of t, t with
-  | Some afn, _, _ => walk_top (marked (c_id c) (gated (im_of c) (fieldmap_item (fm_of c) afn)))
-  | None, Some tv, _ => walk_top (marked (c_id c) (gated (im_of c) (value_item tv)))
-  | None, None, TDrop => walk_top (gated (im_of c) drop_item)
-  | None, None, _ => fun d => d
+  match afn_of t, tv_of t, it_of t, t with
+  | Some afn, _, _, _ => walk_top (marked (c_id c) (gated (im_of c) (fieldmap_item (fm_of c) afn)))
+  | None, Some tv, _, _ => walk_top (marked (c_id c) (gated (im_of c) (value_item tv)))
+  | None, None, Some tr, _ => walk_top (marked (c_id c) (gated (im_of c) (fst tr)))
+  | None, None, None, TDrop => walk_top (gated (im_of c) drop_item)
+  | None, None, None, _ => fun d => d
   end.
 Definition is_addcond (t : tspec) : bool := match t with TAddCond _ _ _ => true | _ => false end.
 
@@ -469,7 +554,7 @@ Lemma apply_tspec_dets c t r : is_addcond t = false ->
   r_dets (apply_tspec c t r) = map (fun p => (fst p, det_step c t (snd p))) (r_dets r).
 Proof.
   destruct t; try discriminate; intros _; try reflexivity.
-  cbn [apply_tspec det_step afn_of tv_of]. rewrite map_ext with (g := fun p => p); [rewrite map_id; reflexivity|].
+  cbn [apply_tspec det_step afn_of tv_of it_of]. rewrite map_ext with (g := fun p => p); [rewrite map_id; reflexivity|].
   intros [a b]; reflexivity.
 Qed.
 
@@ -502,6 +587,9 @@ Lemma rw_tspec_values c t tv : tv_of t = Some tv ->
 Proof. destruct t; try discriminate; intros E; inversion E; reflexivity. Qed.
 Lemma afn_tv_disjoint t afn : afn_of t = Some afn -> tv_of t = None.
 Proof. destruct t; try discriminate; reflexivity. Qed.
+Lemma rw_tspec_it c t tr : it_of t = Some tr ->
+  rw_tspec c t = scoped (im_of c) (smarked (c_id c) (fst (snd tr)) (snd (snd tr))).
+Proof. destruct t; try discriminate; intros E; inversion E; reflexivity. Qed.
 
 (* exact agreement of one step on one detection *)
 Lemma det_step_exact c t d : is_addcond t = false ->
@@ -524,7 +612,15 @@ Proof.
       apply value_item_exact_on. intros v Hv.
       unfold item_exact_ok, item_sem_ok in Hi. cbn [afn_of] in Hi. rewrite Him in Hi. cbn [negb orb andb] in Hi.
       rewrite andb_true_r in Hi. apply replace_value_agree. rewrite forallb_forall in Hi. apply Hi, Hv.
-    + destruct t; try discriminate Ha; try discriminate Ef; try discriminate Et.
+    + destruct (it_of t) as [tr|] eqn:Ei.
+      { rewrite (rw_tspec_it c t tr Ei).
+        apply (walk_top_exact (item_exact_ok c t)); [|exact Hok].
+        intros i Hi. apply layer_exact. intros Him.
+        unfold item_exact_ok, item_sem_ok in Hi. rewrite Ef, Him in Hi. cbn [negb orb andb] in Hi.
+        destruct t; try discriminate Ei; inversion Ei; subst tr; cbn [fst snd].
+        - rewrite andb_true_l in Hi. apply negb_true_iff in Hi. split; [apply hashes_exact, Hi | apply hashes_touch].
+        - rewrite andb_true_r in Hi. apply negb_true_iff in Hi. split; [apply extract_exact, Hi | apply extract_touch]. }
+      destruct t; try discriminate Ha; try discriminate Ef; try discriminate Et; try discriminate Ei.
       * (* drop *) apply (walk_top_exact (fun _ => true)).
         -- intros i _. apply gated_exact. reflexivity.
         -- clear. induction d as [i | l land IH] using det_ind'; [reflexivity|]. cbn [forall_items].
@@ -544,11 +640,18 @@ Proof.
     rewrite E1, (rw_tspec_rename c t afn Ef). apply (walk_top_sem asg (item_sem_ok c t)); [|exact Hok].
     intros i Hi. apply layer_sem. intros Him. apply fieldmap_sem.
     unfold item_sem_ok in Hi. rewrite Ef, Him in Hi. exact Hi.
-  - rewrite <- eval_doc_of. f_equal. apply det_step_exact; [exact Ha|].
-    assert (Hs : forall i, item_sem_ok c t i = true -> item_exact_ok c t i = true).
-    { intros i Hi. unfold item_exact_ok. rewrite Hi, Ef, andb_false_r. reflexivity. }
-    clear Ha. induction d as [i | l land IH] using det_ind'; cbn [forall_items] in *; [apply Hs, Hok|].
-    rewrite forallb_forall in *. intros x Hx. rewrite Forall_forall in IH. apply IH; [exact Hx | apply Hok, Hx].
+  - destruct (match t with THashes _ => true | _ => false end) eqn:Eh.
+    + (* hashes_fields: semantic agreement also for negated items *)
+      destruct t; try discriminate Eh.
+      assert (E1 : det_step c (THashes H) = walk_top (marked (c_id c) (gated (im_of c) (hashes_item H)))) by reflexivity.
+      rewrite E1, (rw_tspec_it c (THashes H) _ eq_refl). cbn [fst snd].
+      apply (walk_top_sem asg (fun _ => true)); [|apply forall_items_true].
+      intros i _. apply layer_sem. intros _. apply hashes_sem.
+    + rewrite <- eval_doc_of. f_equal. apply det_step_exact; [exact Ha|].
+      assert (Hs : forall i, item_sem_ok c t i = true -> item_exact_ok c t i = true).
+      { intros i Hi. unfold item_exact_ok. rewrite Hi, Ef. destruct t; try discriminate Eh; rewrite andb_false_r; reflexivity. }
+      clear Ha. induction d as [i | l land IH] using det_ind'; cbn [forall_items] in *; [apply Hs, Hok|].
+      rewrite forallb_forall in *. intros x Hx. rewrite Forall_forall in IH. apply IH; [exact Hx | apply Hok, Hx].
 Qed.
 
 (* ---------- rules and pipelines ---------- *)
@@ -712,11 +815,6 @@ Proof.
 Qed.
 
 (* semantic identity: a walk / a rewrite that replaces every item by something of the same meaning *)
-Lemma forall_items_true d : forall_items (fun _ => true) d = true.
-Proof.
-  induction d as [i | l land IH] using det_ind'; [reflexivity|]. cbn [forall_items].
-  apply forallb_forall. intros x Hx. rewrite Forall_forall in IH. apply IH, Hx.
-Qed.
 Lemma sems_marked asg id tr i : sems asg (rep_list i (marked id tr i)) = sems asg (rep_list i (tr i)).
 Proof.
   unfold marked. destruct (tr i); try reflexivity. unfold sems. cbn [rep_list flat_map]. rewrite sem_mark. reflexivity.
@@ -847,3 +945,21 @@ Lemma chain_marks_example :
   = [([115], All [Any [Entry (mkI (Some [120]) [V (ANum [49])] false false [[67]; [65]]);
                        Entry (mkI (Some [121]) [V (ANum [49])] false false [[67]; [65]])]])].
 Proof. split; vm_compute; reflexivity. Qed.
+
+(* extract_fields drops the negation of the item it replaces (D34): r|neq: a, regex (?P<g>a) *)
+Definition xneg_rule : rule := mkR [([115], DD [DI (mkI (Some [114]) [V (AStr false [PStr [97]])] false true [])] true)] [115] [].
+Definition xneg_cfg : xcfg := mkX None false [([97], Some [([103], Some [97])])] [].
+Lemma extract_negated_refuted :
+  exists asg c t r, meanings asg (apply_tspec c t r) <> doc_meanings asg (rewrite_tspec c t (rdocs_of r)).
+Proof. exists (fun _ _ => true), no_conds, (TExtract xneg_cfg), xneg_rule. vm_compute. discriminate. Qed.
+
+(* hashes_fields: [MD5=a, SHA1=b, MD5=c] with all three algorithms valid gives FileMD5: [a, c], FileSHA1: b *)
+Definition hashes_rule : rule :=
+  mkR [([115], DD [DI (mkI (Some [72]) [V (AStr false [PStr [77; 68; 53; 61; 97]]); V (AStr false [PStr [83; 72; 65; 49; 61; 98]]);
+                                        V (AStr false [PStr [77; 68; 53; 61; 99]])] false false [])] true)] [115] [].
+Definition hashes_cfg : hcfg := mkH [s_md5; s_sha1] [70] false [[72]].
+Lemma hashes_interleaved_example :
+  rdocs_of (apply_tspec no_conds (THashes hashes_cfg) hashes_rule)
+  = [([115], All [Any [Entry (mkI (Some [70; 77; 68; 53]) [V (AStr false [PStr [97]]); V (AStr false [PStr [99]])] false false []);
+                       Entry (mkI (Some [70; 83; 72; 65; 49]) [V (AStr false [PStr [98]])] false false [])]])].
+Proof. vm_compute. reflexivity. Qed.
